@@ -208,7 +208,7 @@ pub fn run(ctx: &Ctx) -> EngineResult {
         writer_reports.push(json!({
             "writers": writers, "retries": retries, "deviation_bound": bound, "completed_bound": stats.completed_bound,
             "schedules": stats.schedules, "schedules_per_bound": stats.per_bound, "distinct_outcomes": stats.outcomes.len(),
-            "max_decisions_per_execution": stats.max_decisions, "deadlocks": stats.deadlocks, "horizon_hits": stats.horizon_hits,
+            "max_decisions_per_execution": stats.max_decisions, "deadlocks": stats.deadlocks, "horizon_hits": stats.horizon_hits, "executions_retried_after_wall_timeout": stats.retried_timeouts,
         }));
         eprintln!("[C19] writers {writers}: {} schedules {:?}, {} outcomes, {:.1}s", stats.schedules, stats.per_bound, stats.outcomes.len(), ctx.elapsed());
     }
